@@ -1,4 +1,5 @@
 import Comrak.Props.C12
+import Comrak.Props.C11C12Canon
 open Comrak.C12
 #print axioms slice_length
 #print axioms slice_is_infix
@@ -7,3 +8,4 @@ open Comrak.C12
 #print axioms makeInline_in_line
 #print axioms makeInline_matches_contentMap
 #print axioms column_zero_rejected
+#print axioms canon_positions_denote_their_text
